@@ -63,6 +63,23 @@ PROPS = {
         "assumptions": ["faults are transient single failures of one VFS/MetaStore call with no partial effect (a failed write writes nothing; a failed fsync leaves the data written)", "deletions are exempt from fault injection (Go map order makes their order nondeterministic)", "I/O error + restart + later power loss is outside the model (adopted unsynced data is treated as synced)"],
         "rule": "seeded workloads with a fault armed before 1/3 of the calls (the k-th action from then fails, k in 0..4), in-process audits, restart, reopen, usability probe; oracle = acknowledged entries readable and unchanged in-process and after reopen; distinct = distinct input lines",
     },
+    "C09": {
+        "streams": [S("format", 400, 8000, vm=(40, 400)), S("golden", 1, 1, vm=(8, 18), vm_maxlen=6000)],
+        "trusted": [GO, "README.md sections 'Segment Files', 'Frames', 'Alignment', 'Sealing' as transcribed in coq/Fmt/ReadmeSpec.v (literal constants, independent encoder/decoder)",
+                    "golden fixtures under golden/ were written by `wh mkgolden` with the tree pinned in round 1"],
+        "assumptions": ["segment files stay below 2^32 bytes (offsets are uint32 in the format; guard of every theorem)",
+                        "payload bytes are bytes (wf_bytes) where a CRC value is read back",
+                        "README wording 'or just after the file header' for the first commit's CRC range is a documentation discrepancy (DESIGN.md section 10): code and spec include the header"],
+        "rule": "format: seeded histories of appends (all padding residues, payloads that look like frames), size/forced sealing, tail and sealed reads, file dump byte-for-byte; golden: 5 committed directories (single tail, sealed+tail, head truncation, tail truncation + re-append, custom start index), each opened by the current code, each segment file decoded by the README-only parser; distinct = distinct input lines",
+    },
+    "C15": {
+        "streams": [S("sizes", 150, 400, vm=(30, 200))],
+        "trusted": [GO],
+        "assumptions": ["L1 (single segment file) form; the WAL-level lifting is part of C05/C01",
+                        "segment files stay below 2^32 bytes",
+                        "the 64 MiB +- 1 cases run on the implementation only (thorough tier): a 128 MiB hex line is too large for the model driver; the theorems cover every size"],
+        "rule": "sizes: payload 0 and all residues mod 8 alone and at each batch position, segment limit +- frame overhead for limits 256/512/1024, entries larger than the whole segment, payloads 65512..65544 around the 64 KiB read buffer (4 per quick run, all 33 in thorough), random mixes; thorough adds MaxEntrySize-1, MaxEntrySize, MaxEntrySize+1 alone and mid-batch",
+    },
 }
 for _p in ("C02", "C03", "C04", "C13"):
     PROPS[_p] = dict(PROPS["C01"])
